@@ -490,7 +490,10 @@ func (b *resourceHandler) applyDelete(r res.Resource) (interface{}, error) {
 		v := reflect.New(b.t)
 		err = json.Unmarshal(dta, v.Interface())
 		if err != nil {
-			return nil, err
+			// The delete is already committed. Instead of returning an error,
+			// which would cancel the delete event of a resource that is gone,
+			// we return the raw JSON data, as middleware.BadgerDB does.
+			return json.RawMessage(dta), nil
 		}
 		value = v.Elem().Interface()
 	}
